@@ -482,4 +482,143 @@ example : WFNamesEx twoEx ∧ ¬ WFNames twoEx := by decide
 example : ¬ WFNamesEx [⟨0, 5, 5, ⟨1, 1⟩, ⟨2, 2⟩, 1, .spot, none⟩, ⟨0, 5, 6, ⟨1, 1⟩, ⟨2, 2⟩, 1, .spot, none⟩] := by
   decide
 
+/-! ## Oracle review C11-M1: the narrowest hypothesis of every key of the spec driver
+
+The `spec` mode of `Driver/C11.lean` used to drop `res` and `rt` whenever `WFAssets ∧ WFNames`
+failed. What each key really needs:
+* `resx` (the exchange an instrument found by name reads back to) and the first bit of `rt`
+  (exchange round trips): nothing — `exchange_resolves_by_name`, `rt_exchanges`;
+* the second bit of `rt` (asset round trips): `WFAssets` — `rt_assets`;
+* the third bit of `rt` (instrument round trips): per-exchange uniqueness of names,
+  `WFNamesPerExchange` = `WFNamesEx` — `rt_instruments_weak`;
+* `res` (the whole definition read back): `WFAssets ∧ WFNamesPerExchange` — `resolve_by_name_weak`;
+* `eres` / `eresm` (the engine's name-keyed tables): `WFAssets ∧ WFNames`, unchanged
+  (`engine_tables_resolve`; `shared_internal_name_witness` shows the global form is needed there). -/
+
+/-- The decidable gate of the spec driver is the hypothesis of the `_weak` theorems. -/
+theorem wfNamesPerExchange_iff (defs : List Def) : WFNamesPerExchange defs ↔ WFNamesEx defs := Iff.rfl
+
+/-- (spec key `resx`, NO hypothesis) Every definition of the input is found by
+`find_instrument_index (exchange, name_internal)`, and whatever entry is found there — for an
+ill-formed collection it may be another definition with the same exchange and name — carries an
+exchange reference that points at the entry of THAT exchange in the exchange table. -/
+theorem exchange_resolves_by_name {defs : List Def} {ii : Indexed} (h : build defs = some ii)
+    (d : Def) (hd : d ∈ defs) :
+    ∃ k x, ii.findInstrumentIndex d.exchange d.nameInternal = some k ∧ ii.instruments[k]? = some x ∧
+      ii.exchanges[x.value.exchange.key]? = some x.value.exchange ∧
+      x.value.exchange.value = d.exchange ∧ x.value.nameInternal = d.nameInternal := by
+  obtain ⟨j, hj⟩ := List.mem_iff_getElem?.mp ((mem_sortedDefs defs d).mpr hd)
+  obtain ⟨_, _, _, hget⟩ := build_some defs ii h
+  obtain ⟨i, hi, he, _, hn, _, _⟩ := hget j d hj
+  rw [findInstrumentIndex_eq defs ii h]
+  cases hf : (ii.instruments.map (·.value)).findIdx?
+      (fun i => decide (i.exchange.value = d.exchange ∧ i.nameInternal = d.nameInternal)) with
+  | none =>
+    exfalso
+    rw [List.findIdx?_eq_none_iff] at hf
+    have hm : i ∈ ii.instruments.map (·.value) :=
+      List.mem_map.mpr ⟨⟨j, i⟩, List.mem_iff_getElem?.mpr ⟨j, hi⟩, rfl⟩
+    have := hf i hm
+    simp [he, hn] at this
+  | some k =>
+    rw [List.findIdx?_eq_some_iff_getElem] at hf
+    obtain ⟨hk, hp, _⟩ := hf
+    have hk' : k < ii.instruments.length := by simpa using hk
+    have hx : ii.instruments[k]? = some ii.instruments[k] := List.getElem?_eq_getElem hk'
+    simp only [List.getElem_map, decide_eq_true_eq] at hp
+    exact ⟨k, ii.instruments[k], rfl, hx, (exchange_reference_resolves h k _ hx).1, hp.1, hp.2⟩
+
+/-- (spec key `res`, minimal hypotheses) `resolve_by_name` with per-exchange uniqueness of names in
+place of the global one: every definition is found by name at exactly one index and the entry found
+reads back — through the exchange and asset tables, positions only — as that definition.
+Hypotheses: `WFAssets defs`, `WFNamesEx defs`. -/
+theorem resolve_by_name_weak {defs : List Def} {ii : Indexed} (h : build defs = some ii)
+    (hwa : WFAssets defs) (hwn : WFNamesEx defs) (d : Def) (hd : d ∈ defs) :
+    ∃ k x, ii.findInstrumentIndex d.exchange d.nameInternal = some k ∧
+      ii.instruments[k]? = some x ∧ x.key = k ∧ resolve ii x.value = some d ∧
+      ∀ k' x', ii.instruments[k']? = some x' → resolve ii x'.value = some d → k' = k := by
+  obtain ⟨k, hk⟩ := List.mem_iff_getElem?.mp ((mem_sortedDefs defs d).mpr hd)
+  obtain ⟨_, _, _, hget⟩ := build_some defs ii h
+  obtain ⟨i, hi, he, _, hn, _, hr⟩ := hget k d hk
+  refine ⟨k, ⟨k, i⟩, ?_, hi, rfl, hr hwa, ?_⟩
+  · rw [lookups_inverse_instrument_weak h hwn, findInstrument_eq defs ii h, hi]
+    exact ⟨i, rfl, he, hn⟩
+  · intro k' x' hx' hr'
+    obtain ⟨d', hd', _, _, _, _, _, hr''⟩ := build_instrument_at defs ii h k' x' hx'
+    have : d' = d := by have := hr'' hwa; rw [hr'] at this; cases this; rfl
+    subst this
+    have hlt : k' < (sortedDefs defs).length := (List.getElem?_eq_some_iff.mp hd').1
+    exact (List.getElem?_inj hlt (nodup_sortedDefs defs)).mp (by rw [hd', hk])
+
+/-- (first bit of the spec key `rt`, NO hypothesis) Exchange round trips: every position of the
+exchange table is found by `find_exchange` and `find_exchange_index` leads back to it; the exchange
+of every definition is found by id and `find_exchange` leads back to the id. -/
+theorem rt_exchanges {defs : List Def} {ii : Indexed} (h : build defs = some ii) :
+    (∀ k, k < ii.exchanges.length →
+      ∃ e, ii.findExchange k = some e ∧ ii.findExchangeIndex e = some k) ∧
+    (∀ d ∈ defs, ∃ k, ii.findExchangeIndex d.exchange = some k ∧ ii.findExchange k = some d.exchange) := by
+  obtain ⟨h1, _⟩ := build_some defs ii h
+  refine ⟨?_, ?_⟩
+  · intro k hk
+    have hk' : k < (sortedExchanges defs).length := by rw [h1, length_enumerate] at hk; exact hk
+    refine ⟨(sortedExchanges defs)[k], ?_, ?_⟩
+    · rw [findExchange_eq defs ii h]; exact List.getElem?_eq_getElem hk'
+    · rw [lookups_inverse_exchange h, findExchange_eq defs ii h]; exact List.getElem?_eq_getElem hk'
+  · intro d hd
+    obtain ⟨k, hk⟩ := findExchange_total defs ii h d hd
+    exact ⟨k, hk, (lookups_inverse_exchange h d.exchange k).mp hk⟩
+
+/-- (second bit of `rt`, hypothesis `WFAssets`) Asset round trips, both directions. -/
+theorem rt_assets {defs : List Def} {ii : Indexed} (h : build defs = some ii) (hwf : WFAssets defs) :
+    (∀ k, k < ii.assets.length →
+      ∃ a, ii.findAsset k = some a ∧ ii.findAssetIndex a.exchange a.asset.nameInternal = some k) ∧
+    (∀ d ∈ defs, ∀ a ∈ defAssets d,
+      ∃ k, ii.findAssetIndex a.exchange a.asset.nameInternal = some k ∧ ii.findAsset k = some a) := by
+  obtain ⟨_, h2, _⟩ := build_some defs ii h
+  refine ⟨?_, ?_⟩
+  · intro k hk
+    have hk' : k < (sortedAssets defs).length := by rw [h2, length_enumerate] at hk; exact hk
+    have hfa : ii.findAsset k = some (sortedAssets defs)[k] := by
+      rw [findAsset_eq defs ii h]; exact List.getElem?_eq_getElem hk'
+    refine ⟨(sortedAssets defs)[k], hfa, ?_⟩
+    rw [lookups_inverse_asset h hwf]
+    refine ⟨(sortedAssets defs)[k].asset.nameExchange, ?_⟩
+    rw [hfa]
+  · intro d hd a ha
+    have hm : a ∈ sortedAssets defs :=
+      (mem_sortedAssets defs a).mpr (List.mem_flatMap.mpr ⟨d, hd, ha⟩)
+    obtain ⟨k, hk⟩ := List.mem_iff_getElem?.mp hm
+    have hfa : ii.findAsset k = some a := by rw [findAsset_eq defs ii h]; exact hk
+    refine ⟨k, ?_, hfa⟩
+    rw [lookups_inverse_asset h hwf]
+    exact ⟨a.asset.nameExchange, by rw [hfa]⟩
+
+/-- (third bit of `rt`, hypothesis `WFNamesEx` only) Instrument round trips, both directions; the
+entry found for a definition carries its exchange, internal name and exchange name. -/
+theorem rt_instruments_weak {defs : List Def} {ii : Indexed} (h : build defs = some ii)
+    (hwn : WFNamesEx defs) :
+    (∀ k, k < ii.instruments.length →
+      ∃ i, ii.findInstrument k = some i ∧
+        ii.findInstrumentIndex i.exchange.value i.nameInternal = some k) ∧
+    (∀ d ∈ defs, ∃ k i, ii.findInstrumentIndex d.exchange d.nameInternal = some k ∧
+      ii.findInstrument k = some i ∧ i.exchange.value = d.exchange ∧
+      i.nameInternal = d.nameInternal ∧ i.nameExchange = d.nameExchange) := by
+  refine ⟨?_, ?_⟩
+  · intro k hk
+    have hfi : ii.findInstrument k = some ii.instruments[k].value := by
+      rw [findInstrument_eq defs ii h, List.getElem?_eq_getElem hk]; rfl
+    exact ⟨_, hfi, (lookups_inverse_instrument_weak h hwn _ _ k).mpr ⟨_, hfi, rfl, rfl⟩⟩
+  · intro d hd
+    obtain ⟨k, hk⟩ := List.mem_iff_getElem?.mp ((mem_sortedDefs defs d).mpr hd)
+    obtain ⟨_, _, _, hget⟩ := build_some defs ii h
+    obtain ⟨i, hi, he, _, hn, hne, _⟩ := hget k d hk
+    have hfi : ii.findInstrument k = some i := by rw [findInstrument_eq defs ii h, hi]; rfl
+    exact ⟨k, i, (lookups_inverse_instrument_weak h hwn _ _ k).mpr ⟨i, hfi, he, hn⟩, hfi, he, hn, hne⟩
+
+/-! Non-vacuity / strictness of the narrowed gate: on `twoEx` (one internal name on two exchanges)
+the old gate `WFInstruments` fails while the new one holds, so `res` and `rt 1 1 1` are now demanded
+there; `exDefs` satisfies both. -/
+example : ¬ WFInstruments twoEx ∧ WFAssets twoEx ∧ WFNamesPerExchange twoEx := by decide
+example : WFAssets exDefs ∧ WFNamesPerExchange exDefs := by decide
+
 end BarterModel.Props.C11
